@@ -118,8 +118,9 @@ class StlAstParserVisitor(LtlAstParserVisitor, StlParserVisitor):
 
         try:
             out = Fraction(Decimal(val))
-        except ArithmeticError:
-            raise RTAMTException('The value {} of the constant {} is not supported as a bound'.format(val, const_name))
+            str(out)
+        except (ArithmeticError, ValueError):
+            raise RTAMTException('The value {:.40} of the constant {} is not supported as a bound'.format(val, const_name))
 
         if ctx.unit() is None:
             unit = ''
@@ -132,8 +133,10 @@ class StlAstParserVisitor(LtlAstParserVisitor, StlParserVisitor):
     def visitIntervalTimeLiteral(self, ctx):
         try:
             time_bound = Fraction(Decimal(ctx.literal().getText()))
-        except ArithmeticError:
-            raise RTAMTException('The literal {} is not supported as a bound'.format(ctx.literal().getText()))
+            # (the bound is printed into the name of its operator: Python refuses to print integers beyond 4300 digits)
+            str(time_bound)
+        except (ArithmeticError, ValueError):
+            raise RTAMTException('The literal {:.40} is not supported as a bound'.format(ctx.literal().getText()))
         if ctx.unit() is None:
             unit = ''
         else:
